@@ -277,7 +277,7 @@ def build_events(level):
             ev.append(("insert_into_range", (li,), s_, e_))
     ev.append(("insert_into_range", (0, 3, 0), 0, 1))
     ev.append(("insert_into_range", (3, 4), 0, 2))
-    for li in ((0,), (3,), (0, 3), (3, 4, 1)):
+    for li in ((0,), (1,), (2,), (3,), (0, 3), (1, 2), (3, 4, 1), (8,), (7, 1)):
         for st in (0, 1, 2):
             ev.append(("insert_at_frontier", li, st))
     for spec in (((0, 0), (1, 1)), ((0, 0), (0, 1)), ((1, 3), (1, 0)), ((0, 5), (1, 8)), ((2, 3), (0, 4)), ((1, 0), (0, 0), (1, 3))):
@@ -334,7 +334,8 @@ def core_events():
         ev.append((name,))
     ev += [("q", "all_qubits"), ("q", "freeze"), ("q", "is_parameterized")]
     ev += [("imul", 2), ("del", "0"), ("clear", (0,), "all"), ("batch_insert", ((0, 0), (1, 1))),
-           ("setitem", "0", 13), ("insert_into_range", (0,), 0, 1)]
+           ("setitem", "0", 13), ("insert_into_range", (0,), 0, 1), ("insert_at_frontier", (1,), 0),
+           ("insert_at_frontier", (2,), 1)]
     return ev
 
 
